@@ -155,7 +155,43 @@ def main(tier):
     provenance.check_undef(rep, {'mem_zero'}, 'MEM', 4)
     provenance.check_kwidth(rep, {'mem_zero'}, 'MEM', 4)
     check_noload(rep)
+    check_combine(rep)
     return rep.finish()
+
+
+# one instruction, one reason: the flag operand is provably 0 here
+COMBINE_EXCEPT = {('mem_zero_detect_avx2', 'add eax,edx'): 'prologue of the >= 128-byte path: the flag is setz of (len >> 7), which is >= 1 on this path, so the addition adds 0',
+                  ('mem_zero_detect_avx512', 'add eax,edx'): 'both operands are 0/1 flags (setz / setnz); no data-derived mask is involved'}
+
+
+def check_combine(rep):
+    import zerotype
+    R = rep.rule('L-ZERO-COMBINE', 'mem_zero_detect kernels: everything derived from the buffer (loaded vectors/words, their OR-combinations, non-zero masks) is combined only by OR, copies, comparison with zero and complement '
+                 'of a zero mask; an addition/subtraction/xor/and/shift of such a value, or a PTEST/VPTESTM of two different data registers (AND), can cancel or drop a set bit - either a non-zero byte goes unseen '
+                 'or a loop condition wraps', floor=4, unit='kernels')
+    res, _ = provenance.analyse('default')
+    for sym, info in sorted(res.items()):
+        if info['fam']['family'] != 'mem_zero':
+            continue
+        R.instance()
+        u, f = info['unit'], info['func']
+        bufl = {(a.insn.addr, a.opidx) for a in info['accesses'] if a.kind in ('load', 'rmw') and base_tag(a.addr) == 'BUF'}
+
+        def isb(i, o, bufl=bufl):
+            return any((i.addr, k) in bufl for k, x in enumerate(i.ops) if x == o)
+        out, n = zerotype.analyse(u, f, isb)
+        if n < 5:
+            raise AnalysisBroken('%s: only %d operations on buffer-derived values recognised' % (sym, n))
+        nbad = 0
+        for i, why, ts in out:
+            key = (sym, re.sub(r'\s+', ' ', i.text).replace(', ', ','))
+            if key in COMBINE_EXCEPT:
+                R.notes.append('%s: "%s" accepted: %s' % (sym, key[1], COMBINE_EXCEPT[key]))
+                continue
+            nbad += 1
+            R.fail('%s: %s' % (u.name, u.where(i, f)), '"%s" %s (operand kinds %s)' % (i.text, why, '/'.join(ts)), key='L-ZERO-COMBINE|%s|%s' % key)
+        if not nbad:
+            R.ok(n, sample='%s: %d operations on buffer-derived values, all OR / copy / zero-compare' % (sym, n))
 
 
 def check_noload(rep):
